@@ -475,6 +475,9 @@ def install_func_recorder(env):
             n = sum(1 for e in it.st.trace if e[0] == 'FUNC')
             r = Opaque('other', it.st.fresh('func_result_%d' % n, OTHER))
             it.st.effect('FUNC', args=a, kwargs=k, ret=r)
+            if getattr(f, 'raises', False):
+                from pyvc.engine import raise_py
+                raise_py('RuntimeError', 'user function failed')
             return r
         return old(it, f, a, k)
     env.call_other = call_other
